@@ -4,7 +4,8 @@
    which every relator fixes every row; no two are equivalent as actions (conjugate
    subgroups); and for every index j up to e.kcheck the number of tables with j rows equals
    the number of conjugacy classes of subgroups of index j, counted independently as classes
-   of transitive homomorphisms into Sym(j) under conjugation (all (j!)^n tuples enumerated). *)
+   of transitive homomorphisms into Sym(j) under conjugation (all (j!)^n tuples enumerated);
+   two renamings of the presentation (generators permuted and inverted) give the same counts for every index up to k. *)
 EXTENDS Action, Json, IOUtils
 Rec == ndJsonDeserialize(IOEnv.TRACE)
 VARIABLE l
@@ -16,6 +17,13 @@ CheckOK(e) ==
    \* pairwise inequivalent: the canonical forms (up to renumbering rows incl. the base row) are all different
    /\ Cardinality({CanonAct(Ts[i]) : i \in 1..Len(Ts)}) = Len(Ts)
    /\ \A j \in 1..e.kcheck : Cardinality({i \in 1..Len(Ts) : NRows(Ts[i]) = j}) = NumSubgroupClasses(e.ng, j, e.rels)
+   \* the same group with renamed / inverted generators (verified: the relators are the renamed relators) has the same number
+   \* of classes for EVERY index up to k, also beyond kcheck
+   /\ \A v \in 1..Len(e.variants) : LET w == e.variants[v] IN
+         /\ "panic" \notin DOMAIN w
+         /\ w.rels = [j \in 1..Len(e.rels) |-> [x \in 1..Len(e.rels[j]) |->
+                         LET y == e.rels[j][x]  g == IF y > 0 THEN y ELSE -y IN w.perm[g] * w.sign[g] * (IF y > 0 THEN 1 ELSE -1)]]
+         /\ \A j \in 1..e.k : w.counts[j] = Cardinality({i \in 1..Len(Ts) : NRows(Ts[i]) = j})
 Next == /\ l <= Len(Rec)
         /\ ("panic" \notin DOMAIN Rec[l] /\ CheckOK(Rec[l])) = TRUE
         /\ l' = l + 1
